@@ -10,7 +10,8 @@ MANIFEST = dict(
     text=("Coq theorems, for ALL client op sequences over an executable binary64 model of nano::solver_state_t and "
           "solver_t::done (update / update_if_better / value_test / gradient_test / valid / done): monotone best value that is "
           "never replaced by a non-finite one (IEEE facts proved through Flocq), history book-keeping, value_test "
-          "specification, status in {max_iters, converged, failed} with `converged` only from a true flag, reported "
+          "specification, status in {max_iters, converged, failed} with `converged` only from a done() call with a true flag, a valid "
+          "state and iter_ok (repo commits 3c2475d, 85997bc -- both defects found by this check), reported "
           "evaluation counts below the evaluations performed, budget-loop overshoot bound; and for every trace accepted by "
           "the done()-event acceptor: returned state = designated snapshot, valid unless failed. The integer/boolean "
           "kernels (done decision, value_test indices, call counters, the budget-loop condition of all 18 solver loops) "
@@ -24,8 +25,9 @@ MANIFEST = dict(
           "C02's state/done composed with C07's bit-exact line searches; objective, g.d, direction rule and lsearch0 are oracles) "
           "and, for every oracle: termination with at most max_evals - 1 + 2*ls_bound + 1 evaluations, the returned triple is "
           "an answer of the oracle at the returned point, with an Armijo-type search (backtrack, lemarechal, fletcher) every "
-          "accepted iterate has f_{k+1} <= f_k in binary64 (Flocq) hence f(returned) <= f(x0) unless failed or converged after "
-          "a failed search (the stronger statement is refuted with a witness), CG_DESCENT's slack, status facts. Tie: 600 "
+          "accepted iterate has f_{k+1} <= f_k in binary64 (Flocq) hence f(returned) <= f(x0) unless failed (a theorem since repo "
+          "commit 85997bc; refuted with a witness before it, and the pre-fix decision is kept as done_ref_prefix), CG_DESCENT's "
+          "slack, status facts incl. converged => the last line search succeeded. Tie: 600 "
           "(thorough 12000) whole runs of the real gd / cgd-* / lbfgs / quasi solvers with a recording function and a "
           "recording lsearch0: the extracted model must request exactly the recorded evaluation points bit for bit and end "
           "in the same state, status and counters."),
@@ -276,13 +278,11 @@ def stage_lsloop(r, cres):
     rc, err = vlib.sh("%s %s > %s" % (shlex.quote(exe), shlex.quote(r.tier), shlex.quote(out_path)), timeout=3000,
                       env={"VERIF_SEED": str(r.seed)})
     replay_cmd = "VERIF_SEED=%d %s %s" % (r.seed, exe, r.tier)
-    fails, done, hist, nruns, cands = [], "", "", 0, []
+    fails, done, hist, nruns = [], "", "", 0
     with open(out_path) as f:
         for l in f:
             if l.startswith("FAIL "):
                 fails.append(l.rstrip("\n"))
-            elif l.startswith("CAND "):
-                cands.append(l.strip()[:300])
             elif l.startswith("DONE "):
                 done = l.strip()
             elif l.startswith("LSHIST"):
@@ -348,8 +348,6 @@ def stage_lsloop(r, cres):
         "lsloop_theorem_mirror_failures": len(pf),
         "lsloop_impl_direct_failures": len(fails),
         "lsloop_harness_histogram": hist[7:] if hist else "",
-        "lsloop_candidates_converged_after_failed_line_search_worse_than_start": len(cands),
-        "lsloop_candidate_samples": cands[:4],
         "lsloop_model_histogram": dhist,
         "lsloop_rule": ("whole runs: solver in {gd (1/3), cgd-* x10, lbfgs, dfp, sr1, bfgs, hoshino, fletcher} x objective in {22 registered "
                         "smooth functions, random quadratics, 1-D adversarial (NaN wall, infinite slope, oscillating, double well, overflow, "
